@@ -694,7 +694,11 @@ impl TypeName {
 
             TypeName::Unit => syn::parse_quote_spanned!(Span::call_site() => ()),
             TypeName::Function(_input_types, output_type, _mutability) => {
-                let output_type = output_type.to_syn();
+                // an Option<T> of a non-pointer T comes back in its FFI-safe form, the macro converts it
+                let output_type = match output_type.as_ref() {
+                    ty @ TypeName::Option(..) => ty.ffi_safe_version().to_syn(),
+                    ty => ty.to_syn(),
+                };
                 // should be DiplomatCallback<function_output_type>
                 syn::parse_quote_spanned!(Span::call_site() => DiplomatCallback<#output_type>)
             }
